@@ -28,7 +28,7 @@ RULE = ('case = (sequence of add_scu/add_scp calls, reply pattern); distinct = (
         'pattern); non-trivial = at least one class configured')
 ASSUMPTIONS = ['reply PDUs are built by the reference encoder and decoded by the library, as the provider would']
 REQUIRED = ['oracle.request-wellformed', 'oracle.usable-contexts', 'oracle.lookup', 'oracle.reject-reply',
-            'oracle.reply-in-another-order', 'oracle.last-context-ids']
+            'oracle.reply-in-another-order', 'oracle.last-context-ids', 'oracle.user-items-of-this-request']
 
 TS4 = ['1.2.840.10008.1.2.1', '1.2.840.10008.1.2', '1.2.840.10008.1.2.2', '1.2.840.10008.1.2.4.50']
 POOL = ['1.2.840.10008.5.1.4.1.1.%d' % i for i in range(1, 200)]
@@ -84,7 +84,7 @@ def run_shard(spec, tier, seed):
             overlap = r.random() < 0.15
             for _ in range(ncalls):
                 size = r.choice([0, 1, 2, 5, 17, 40]) if r.random() < 0.7 else r.randrange(0, 41)
-                kind = r.choice(['scu', 'scu', 'scp'])
+                kind = r.choice(['scu', 'scu', 'scp', 'ctx'])
                 calls.append([kind, size, start])
                 start += size if not overlap else max(size - r.randrange(0, 3), 0)
             if r.random() < 0.1:
@@ -102,7 +102,8 @@ def run_shard(spec, tier, seed):
                     'max': r.choice([16384, 65536, 1024, 7]),
                     # the entity's transfer syntaxes (subset of four) and the order of the reply's items
                     'ts': r.choice([0b0111, 0b0111, r.randrange(1, 16)]),
-                    'order': r.choice(['proposal', 'proposal', 'reversed', 'shuffled'])}
+                    'order': r.choice(['proposal', 'proposal', 'reversed', 'shuffled']),
+                    'max_late': r.random() < 0.25, 'user_data': r.random() < 0.25}
             case.update(reply)
             run_case(res, case)
     return res
@@ -135,17 +136,24 @@ def run_case(res, case):
                                           case.get('rj') or case.get('hostile')))
     mask = case.get('ts', 0b0111)
     tss = [t for k, t in enumerate(TS4) if mask >> k & 1]
+    late = bool(case.get('max_late'))
+    first_max = 4096 if late else max_len
     with stubdul.stubbed() as Stub:
         if full:
             ae = applicationentity.AE(local_title, 0, supported_ts=tss, bind_and_activate=False,
-                                      max_pdu_length=max_len)
+                                      max_pdu_length=first_max)
         else:
-            ae = applicationentity.ClientAE(local_title, supported_ts=tss, max_pdu_length=max_len)
+            ae = applicationentity.ClientAE(local_title, supported_ts=tss, max_pdu_length=first_max)
+        if late:
+            ae.max_pdu_length = max_len      # configured after construction (public attribute)
         try:
             for kind, size, start in calls:
                 classes = POOL[start:start + size]
                 try:
-                    if kind == 'scp' and full:
+                    if kind == 'ctx':
+                        # the documented low-level call: contexts without a service of this entity
+                        ae.update_context_def_list(classes)
+                    elif kind == 'scp' and full:
                         ae.add_scp(service('scp', classes))
                     else:
                         ae.add_scu(service('scu', classes), classes if classes else None) \
@@ -161,7 +169,8 @@ def run_case(res, case):
                                       'raised %s: %s' % (calls, len(classes), len(configured), total,
                                                          type(exc).__name__, exc), case)
                     return
-                configured += [(kind if (kind == 'scp' and full) else 'scu', c) for c in classes]
+                configured += [(kind if (kind == 'ctx' or (kind == 'scp' and full)) else 'scu', c)
+                               for c in classes]
             judge(res, case, ae, configured, Stub, max_len, local_title, remote_title)
         finally:
             if full:
@@ -210,12 +219,29 @@ def judge(res, case, ae, configured, Stub, max_len, local_title, remote_title):
                              calling=local_title.encode())
         return P.AAssociateAcPDU.decode(R.build_pdu(ac))
 
+    custom = []
+    if case.get('user_data'):
+        # the caller's own user-information items and credentials; the same remote description is
+        # used for an earlier association (other user) first
+        from pynetdicom2 import userdataitems as U
+        custom = [U.SOPClassExtendedNegotiationSubItem(POOL[0], b'\x01\x02'),
+                  U.AsynchronousOperationsWindowSubItem(1, 1)]
+        shared_list = list(custom)
+        earlier = dict(remote, user_data=shared_list, username='first-user', password='first-secret')
+        Stub.preload = [lambda stub: P.AAssociateRjPDU(1, 1, 1)]
+        try:
+            with ae.request_association(earlier):
+                pass
+        except exceptions.NetDICOMError:
+            pass
+        remote = dict(earlier, username='second-user', password='second-secret')
+        captured.clear()
     Stub.preload = [reply]
     error = None
     asce = None
     try:
-        asce = asceprovider.AssociationRequester(ae, ae.max_pdu_length, remote)
-        asce.request()
+        # the documented way to request an association
+        asce = ae.request_association(remote).__enter__()
     except exceptions.AssociationRejectedError as exc:
         error = exc
     except Exception as exc:
@@ -246,6 +272,17 @@ def judge(res, case, ae, configured, Stub, max_len, local_title, remote_title):
     if maxlens != [max_len]:
         res.violation('maximum-length-wrong', 'C11.request', '%s: Maximum Length sub-items %r, entity '
                       'configured with %d' % (where, maxlens, max_len), case)
+    if case.get('user_data'):
+        res.count('oracle.user-items-of-this-request')
+        subs = [s_ for u in users for s_ in u['subs']]
+        idents = [(s_['primary'], s_['secondary']) for s_ in subs if s_['type'] == 0x58]
+        extneg = [s_ for s_ in subs if s_['type'] == 0x56]
+        if idents != [(b'second-user', b'second-secret')] or len(extneg) != 1 or \
+                len(remote['user_data']) != len(custom):
+            res.violation('user-items-of-another-request', 'C11.request',
+                          '%s: second request with a shared remote description carries identities %r, %d '
+                          'extended-negotiation items; the caller\'s user_data list now has %d items (%d given)'
+                          % (where, idents, len(extneg), len(remote['user_data']), len(custom)), case)
     proposed = [i for i in tree['items'] if i['type'] == 0x20]
     ids = [i['id'] for i in proposed]
     if len(set(ids)) != len(ids) or any(i % 2 == 0 or not 1 <= i <= 255 for i in ids):
